@@ -5,7 +5,8 @@ Space: limits 1..5 x both modes x every container skeleton with <= 6 (quick) / 7
 (thorough) containers in three container flavours (arrays, objects, alternating) and two
 leaf flavours (scalar / nothing at the bottom); chains of nesting limit-1, limit,
 limit+1, limit+2 for limits 1..5, 100, 200 with the deep branch first / middle / last
-and array / object / mixed links; cyclic structures (self-loop through an array,
+and array / object / mixed links; chains 1 000, 6 000 and 60 000 levels deep for limits 1, 5,
+100; cyclic structures (self-loop through an array,
 through an object, 2- and 3-cycles mixing both, a cycle below a finite prefix,
 branching cycles for small limits).  In nondeterministic mode every input is explored
 over its complete choice tree when the limit is <= 4 (<= 5 thorough) and with <= 2
@@ -298,6 +299,10 @@ def check_case(case):
     sys.setrecursionlimit(1000)
     try:
         spec, limit, nd, query = case["doc"], case["limit"], case["nondeterministic"], case["query"]
+        if case.get("sub"):
+            tmp = Shard(PROPERTY)
+            do_sub(tmp, spec, limit, nd, query, 5)
+            return tmp.violations[0] if tmp.violations else None
         if "choices" in case:
             doc, nest = make_doc(spec)
             cq = env(limit, nd).compile(query)
@@ -333,6 +338,9 @@ def shards(tier):
         for dn in (-1, 0, 1, 2):
             for link in ("list", "dict", "alt"):
                 out.append({"part": "chain", "limit": limit, "dn": dn, "link": link, "tier": tier})
+    for limit in (1, 5, 100):
+        for n in (1000, 6000, 60000):
+            out.append({"part": "verydeep", "limit": limit, "n": n, "tier": tier})
     for name in CYCLES + BRANCHING:
         for limit in ((1, 2, 3, 4) if name in BRANCHING else (1, 2, 3, 4, 5, 100)):
             out.append({"part": "cycle", "name": name, "limit": limit, "tier": tier})
@@ -370,6 +378,16 @@ def run_shard(desc):
                                 continue
                             for nd in (False, True):
                                 do(spec, limit, nd, "$..*", abs(nest - limit) <= 1)
+        elif desc["part"] == "verydeep":
+            # data nested thousands of levels below the limit: still JSONPathRecursionError, never
+            # the interpreter's RecursionError (no reference result needed: the input is over the limit)
+            for link in ("list", "dict", "alt"):
+                for bottom in ("scalar", "empty"):
+                    for where in ("alone", "last"):
+                        spec = {"kind": "chain", "n": desc["n"], "link": link, "bottom": bottom, "where": where}
+                        for nd in (False, True):
+                            for q in ("$..*", "$..a"):
+                                do(spec, desc["limit"], nd, q, True)
         elif desc["part"] == "chain":
             limit = desc["limit"]
             for n in (limit + desc["dn"],):
